@@ -49,7 +49,7 @@ ZONES = PR.ZONES
 FREQ_TXT = {"daily": "DAILY", "weekly": "WEEKLY", "monthly": "MONTHLY", "yearly": "YEARLY"}
 TXT_FREQ = {v: k for k, v in FREQ_TXT.items()}
 PERIOD_S = PR.PERIOD_S
-HI_TS = PR.dn(date(2058, 1, 1)) * DAY          # the zone tables end in 2062
+HI_TS = PR.dn(date(2057, 1, 1)) * DAY          # the zone tables end in 2062
 TMP = Path(f"/tmp/verif_ical_{os.getpid()}")
 
 # sub-domains of the recorded findings (KF-*-C19); generated unless switched off
@@ -656,8 +656,8 @@ def gen_pattern(rng, exotic=False):
     r["week_form"] = rng.random() < 0.3
     # keep durations moderate: a slice must not hold thousands of events
     per = PERIOD_S[r["freq"]] * r["interval"]
-    if r["dur"] > 2 * per:
-        r["dur"] = rng.choice([3600, DAY, per, per + 3600])
+    if r["dur"] > min(2 * per, 400 * DAY):
+        r["dur"] = rng.choice([3600, DAY, min(per, 40 * DAY), min(per, 40 * DAY) + 3600])
     return r
 
 
@@ -824,8 +824,9 @@ def gen_file_pattern(rng, exotic):
             wds = {e[0] for e in r["days"]}
             while d0.weekday() not in wds or d0 in (date(1970, 1, 1), date(1969, 12, 29)):
                 d0 -= timedelta(days=1)
-        r["anchor"][:3] = [d0.year, d0.month, d0.day]
-        r["as_int"] = False
+        if PR.fires_within(r, d0):        # (a rule that never fires from there makes dateutil spin)
+            r["anchor"][:3] = [d0.year, d0.month, d0.day]
+            r["as_int"] = False
     return r
 
 
@@ -879,8 +880,9 @@ class FilesFamily(IcalFamily):
         for _ in range(rng.choice([2, 3])):
             it = rng.choice(items)
             t0 = item_first_ts(it)
-            if t0 is None or t0 < 0 and it["kind"] == "pattern":
-                t0 = rng.randrange(PR.WIN_LO, PR.WIN_HI) * DAY
+            utc_only = all(p["tz"] == "UTC" or p.get("fixed") is not None for p in pats)
+            if t0 is None or (t0 < 0 and it["kind"] == "pattern") or (t0 < 3 * 365 * DAY and not utc_only):
+                t0 = rng.randrange(PR.WIN_LO, PR.WIN_HI) * DAY      # the zone tables start in 1968
             if it["kind"] == "pattern":
                 t0 += rng.choice([0, 0, 1, 5, rng.randrange(0, 300)]) * PERIOD_S[it["freq"]] * it["interval"]
                 if t0 > HI_TS:
